@@ -530,7 +530,7 @@ func replayC02(env *Env) {
 	}
 	parallel(len(hdr), 0, func(i int) {
 		replayHdr(env, hdr[i])
-		if i%9973 == 11 {
+		if i == 11 || i == len(hdr)/2 {
 			env.sample(map[string]any{"title_line": strings.Join(hdr[i].Line, ""), "class": hdr[i].Cls})
 		}
 	})
